@@ -252,7 +252,7 @@ class DPPSpec(SelSpec):
                 if len(others) - len(ko) < quota:
                     continue
                 out.append((f"{self.kind}3-p{''.join(map(str, ps))}-k{''.join(map(str, ko))}-q{quota}", dict(size=size, probes=ps, keepout=list(ko), quota=quota)))
-        if tier == "thorough":
+        if tier != "quick":
             out.append((f"{self.kind}4-q3", dict(size=4, probes=[5] if not self.multi else [5, 10], keepout=[0, 15, 3], quota=3)))
         else:
             out.append((f"{self.kind}3-q3", dict(size=3, probes=[4], keepout=[0, 8], quota=3)))
